@@ -99,6 +99,19 @@ def gen_pairs(ctx):
             cfg = replace(cfg, 'Maximum Drawdown', 1)
         pairs.append(('tdp-rate', {'param': 'Drawdown Parameter', 'lo': lo, 'hi': hi},
                       replace(cfg, 'Drawdown Parameter', lo), replace(cfg, 'Drawdown Parameter', hi)))
+    # small margin between the rock and the fluid entering the reservoir (injection temperature + wellbore gain): the sign of
+    # (Trock - Tin) is what makes the clause hold, so it is probed where one more gain would flip it
+    for _ in range(max(2, 2 * n)):
+        cfg = replace(configs.synthetic(rnd, nseg=1, resmodel=4, addons=False), 'Maximum Drawdown', 1)
+        ti, g, u = rnd.choice([40, 55, 70]), rnd.choice([5, 10, 20]), rnd.choice([0.15, 0.5, 0.85])
+        grad, ts = rnd.choice([30, 45, 60]), 15
+        depth = round((ti + g * (1 + u) - ts) / grad, 4)
+        for k, v in (('Injection Temperature', ti), ('Injection Wellbore Temperature Gain', g), ('Gradient 1', grad),
+                     ('Surface Temperature', ts), ('Reservoir Depth', depth), ('Maximum Temperature', 400)):
+            cfg = replace(cfg, k, v)
+        lo, hi = two_values(rnd, 0.001, 0.03, 4)
+        pairs.append(('tdp-rate', {'param': 'Drawdown Parameter', 'lo': lo, 'hi': hi, 'margin_over_injected_fluid': round(g * u, 3)},
+                      replace(cfg, 'Drawdown Parameter', lo), replace(cfg, 'Drawdown Parameter', hi)))
     # redrilling interacts with the drawdown rate (recorded finding): always exercised
     cfg = replace(replace(configs.synthetic(rnd, resmodel=4, life=30, tspy=2, addons=False), 'Maximum Drawdown', 0.1), 'Injection Temperature', 50)
     pairs.append(('tdp-rate', {'param': 'Drawdown Parameter', 'lo': 0.003, 'hi': 0.004, 'redrilling': True},
